@@ -138,7 +138,11 @@ func (e *End) FailRead() { e.rfailOnce.Do(func() { close(e.rfail) }) }
 func (e *End) FailReadAfter(n int) {
 	e.mu.Lock()
 	e.failReadAfter = n
+	now := e.reads >= n
 	e.mu.Unlock()
+	if now {
+		e.FailRead() // also wakes a Read that is already blocked
+	}
 }
 
 // FailWrite makes the current and every later Write fail.
@@ -206,7 +210,7 @@ func (e *End) Read(ctx context.Context) (*Rpc, error) {
 		e.mu.Lock()
 		e.reads++
 		e.mu.Unlock()
-		return r, nil
+		return r, nil // the next Read call notices failReadAfter
 	}
 }
 
